@@ -27,6 +27,9 @@ open RdfModel RdfModel.TW RdfModel.NQO
 @[simp] theorem runes_reverse (a : List RP) : runes a.reverse = (runes a).reverse := by
   simp [runes]
 
+@[simp] theorem runes_eq_nil (a : List RP) : runes a = [] ↔ a = [] := by
+  simp [runes]
+
 @[simp] theorem countLF_nil : countLF [] = 0 := rfl
 
 theorem countLF_append (a b : List RP) : countLF (a ++ b) = countLF a + countLF b := by
@@ -47,8 +50,8 @@ theorem colAfter_append (a b : List RP) (acc : Nat) :
       · exact ih (acc + 1)
 
 theorem posAfter_append (o : Offset) (a b : List RP) : posAfter (posAfter o a) b = posAfter o (a ++ b) := by
-  simp only [posAfter, size_append, countLF_append, colAfter_append, Offset.mk.injEq]
-  omega
+  simp only [posAfter, size_append, countLF_append, colAfter_append]
+  congr 1 <;> omega
 
 @[simp] theorem posAfter_nil (o : Offset) : posAfter o [] = o := by
   simp [posAfter, colAfter]
@@ -108,7 +111,7 @@ theorem lineCol_col_simple {cols : List Nat → Nat} (hc : ColsSimple cols) (seg
       · rw [ih [] _ _ rfl hrs.2, flush_simple hc seg c hseg]; simp
       · rw [ih (r.1 :: seg) _ _ (simple_cons.2 ⟨hrs.1, hseg⟩) hrs.2]
         simp only [List.length_cons]
-        congr 1; omega
+        congr 1
 
 /-- On simple text `write` computes the position of the text (`posAfter`), whatever cluster counter
     is used, as long as it counts one cluster per rune on simple text. -/
@@ -166,7 +169,7 @@ theorem lineCol_shift (cols : List Nat → Nat) (ol oc : Nat) (seg : List Nat) (
           if (lineCol cols seg rs l c).1 = 0 then oc + (lineCol cols seg rs l c).2
           else (lineCol cols seg rs l c).2) := by
   induction rs generalizing seg l c with
-  | nil => simp [lineCol, flush_shift]
+  | nil => simp only [lineCol]; rw [flush_shift]; by_cases hl : l = 0 <;> simp [hl]
   | cons r rs ih =>
     simp only [lineCol]
     split
@@ -182,8 +185,8 @@ theorem write_shift (cols : List Nat → Nat) (o p : Offset) (rs : List RP) :
   simp only [write, shift, Offset.mk.injEq]
   have h := lineCol_shift cols o.line o.col [] rs p.line p.col
   refine ⟨by omega, ?_, ?_⟩
-  · rw [h]
-  · rw [h]
+  · simp only [h]
+  · simp only [h]; by_cases hl : (lineCol cols [] rs p.line p.col).fst = 0 <;> simp [hl]
 
 /-- A writer started at `o` is, at every moment, the writer started at zero, shifted by `o`. -/
 theorem histOffset_shift (cols : List Nat → Nat) (o : Offset) (h : Hist) :
